@@ -57,7 +57,7 @@ var polNames = map[string]int{"uniform": core.PolUniform, "sticky": core.PolStic
 func coreCfg(c *sim.Case, script []int16, strict, keepLog bool) core.Config {
 	s := c.Sched
 	cfg := core.Config{Seed: s.Seed, Policy: polNames[s.Policy], StickyPct: s.StickyPct, PCTDepth: s.PCTDepth,
-		PCTLen: s.PCTLen, FreezeAt: s.FreezeAt, Probe: s.Probe, TickPct: s.TickPct, SpinBurn: s.SpinBurn, MaxSteps: s.MaxSteps, KeepLog: keepLog}
+		PCTLen: s.PCTLen, FreezeAt: s.FreezeAt, Probe: s.Probe, TickPct: s.TickPct, SpinBurn: s.SpinBurn, ClockJumpPct: s.ClockJumpPct, MaxSteps: s.MaxSteps, KeepLog: keepLog}
 	for _, st := range s.Stalls {
 		cfg.Stalls = append(cfg.Stalls, core.Stall{T: st.T, At: st.At, For: st.For, AfterW: st.AfterW})
 	}
@@ -382,6 +382,9 @@ func Main(spec *Spec) {
 		if res.FairRounds > 0 {
 			out.Probes["fair_retry_round"] += res.FairRounds
 		}
+		if res.ClockJumps > 0 {
+			out.Faults["clock_jump_at_a_clock_read"] += res.ClockJumps
+		}
 		if res.Burns > 0 {
 			out.Faults["spin_attempt_burnt_without_progress"] += res.Burns
 		}
@@ -555,6 +558,12 @@ func GenSched(r *sim.Rng, nThreads, totalOps int, probe int, allowFreeze bool) *
 		if probe >= 0 && allowFreeze && r.Pct(60) {
 			s.FreezeAt = r.Range(s.SpinBurn, s.SpinBurn*6)
 		}
+		if r.Bool() {
+			// while somebody waits that long, wall-clock time passes in big steps
+			s.ClockJumpPct = []int{5, 25, 60}[r.N(3)]
+		}
+	} else if r.Pct(3) {
+		s.ClockJumpPct = []int{2, 10}[r.N(2)] // the clock is stepped, or the process descheduled, at a clock read
 	}
 	return s
 }
